@@ -297,10 +297,10 @@ def decide(pid, tier, seed, P, vres, kres, kmeta, vac, t0, evdir):
         else:
             u_ = r.get('_unit_obj')
             found = False
-            if u_ is not None and getattr(u_, 'oracle', None) and ('solver limit' in r.get('reason', '') or r.get('lost_anchor')):
+            if u_ is not None and getattr(u_, 'oracle', None) and ('solver limit' in r.get('reason', '') or r.get('lost_anchor') or 'front-end error' in r.get('reason', '')):
                 # Z3 ran out of budget instead of refuting, or the code changed shape under the contract:
                 # let the executable contract decide on the real code
-                kind_ = 'solver limit' if 'solver limit' in r.get('reason', '') else 'contract anchor lost'
+                kind_ = 'solver limit' if 'solver limit' in r.get('reason', '') else ('extracted code left the verified subset' if 'front-end error' in r.get('reason', '') else 'contract anchor lost')
                 f = {'obligation': '%s/(%s)' % (r['unit'], kind_), 'message': r.get('reason', ''), 'function': None, 'rendered': r.get('reason', '')}
                 path, found = verus_counterexample(r, f, evdir, pid)
                 if found:
